@@ -113,6 +113,6 @@ def hgStep (h : HGState) (toks : List String) : HGState × List String :=
       | "peersets" => (h, [s!"O peersets {fmtPeerSets s.peerSets} validators={fmtList (s.validators.map toString)} repertoire={fmtList ((s.repertoire.toArray.qsort (· < ·)).toList.map toString)}"])
       | "last" =>
         let pend := s.pending.map (fun p => s!"{p.1}:{if p.2 then 1 else 0}")
-        (h, [s!"O last lastRound={s.lastRound} lcr={fmtOpt s.lcr} undet={s.undet.length} pending={fmtList pend} lastBlock={s.lastBlock} topo={s.topo}"])
+        (h, [s!"O last lastRound={s.lastRound} lcr={fmtOpt s.lcr} undet={s.undet.length} pending={fmtList pend} lastBlock={s.lastBlock}"])
       | _ => (h, ["O bad-op"])
   | _ => (h, ["O bad-op"])
